@@ -100,6 +100,10 @@ func AnswerRounds(s Source, steps []Step, callers []CallSpec, errEvery int) ([]S
 				if it.Gzip {
 					feats["gzip"]++
 					feats[kinds[tg]+":gzip"]++
+					if it.GzipStyle = s.Int("gzip-style", 6); it.GzipStyle == 5 {
+						it.GzipStyle = 1
+					}
+					feats[[]string{"gzip:default", "gzip:flushed-in-between", "gzip:stored", "gzip:huffman-only", "gzip:best"}[it.GzipStyle]]++
 				}
 				feats[kinds[tg]+":"+form]++
 				st.Items = append(st.Items, it)
